@@ -46,14 +46,24 @@ func caseFromSx(v sx.V) (Case, error) {
 	switch v.N(0).Str() {
 	case "route":
 		return routeCase{routeCaseFromSx(v)}, nil
+	case "copy":
+		return copyCase{copyCaseFromSx(v)}, nil
 	}
 	return nil, fmt.Errorf("unknown family %q", v.N(0).Str())
 }
 
 func generate(prop, tier string, rng *Rng) []Case {
 	switch prop {
+	case "C01":
+		return genC01(tier, rng)
+	case "C02":
+		return genC02(tier, rng)
+	case "C03":
+		return genC03(tier, rng)
 	case "C04":
 		return genC04(tier, rng)
+	case "C20":
+		return genC20(tier, rng)
 	}
 	fmt.Fprintf(os.Stderr, "hx: no generator for %s\n", prop)
 	os.Exit(2)
